@@ -17,8 +17,39 @@ import (
 	"github.com/zenon-network/go-zenon/wallet"
 )
 
+// the four method tables are nested (origin < accelerator < bridge+liquidity < htlc): a spork activation never
+// takes a contract or a method away, so a call accepted under one regime still finds its method (and its contract)
+// when it is received under a later one
+func tablesOracle(out *Out) {
+	tabs := embedded.VerifMethodTables()
+	terms := Lst()
+	ok := true
+	for i := range tabs {
+		l := Lst()
+		for _, e := range tabs[i] {
+			l = append(l, Tup(Byt(e.Contract.Bytes()), Byt(e.Selector)))
+		}
+		terms = append(terms, l)
+		if i > 0 {
+			for _, e := range tabs[i-1] {
+				found := false
+				for _, f := range tabs[i] {
+					found = found || (f.Contract == e.Contract && f.Name == e.Name && string(f.Selector) == string(e.Selector))
+				}
+				if !found {
+					ok = false
+					out.Oracle(false, "method-tables-not-monotone", M{"table": I64(int64(i)), "contract": e.Contract.String(), "method": e.Name})
+				}
+			}
+		}
+	}
+	out.Oracle(ok, "method-tables-not-monotone", nil)
+	out.Case("method_tables", terms, ok, "tables")
+}
+
 func RunRemoved(rng *rand.Rand, n int, out *Out, _ []string) {
 	shortenConstants()
+	tablesOracle(out)
 	type call struct {
 		c      types.Address
 		method string
